@@ -196,6 +196,11 @@ class Interp:
                     finally:
                         self.defaultref_envs.pop()
                         self.in_defaultref -= 1
+                elif v is not None:
+                    # {{ name }} is an ordinary variable read: the alias may be shadowed by a nearer binding
+                    import html as _html
+
+                    out.append(_html.escape(str(v)) if isinstance(v, dict) else str(v))
             elif k == "probe":
                 if owner is None:
                     raise Unspecified("probe outside a component template")
